@@ -593,7 +593,7 @@ class WorldC:
         last returned arrays exist (edits are only enabled then)."""
         import grid.coulomb as cou
 
-        tab = cou._ATOMIC_GAUSS_PARAMS_CACHE
+        tab = getattr(cou, "_ATOMIC_GAUSS_PARAMS_CACHE", None)
         state = []
         for sym in ("H", "C", "O", "Cl"):
             if tab is None:
